@@ -54,6 +54,15 @@ def is_counter(e, prov, depth=0):
     return False
 
 
+def all_defs(e, prov, pred, depth=0):
+    """pred holds for the expression on every reaching definition (merged locals are expanded)."""
+    e = strip_casts(e)
+    if isinstance(e, tuple) and e and e[0] == "var" and depth < 8:
+        ds = prov.expand(e)
+        return bool(ds) and all(all_defs(d, prov, pred, depth + 1) for d in ds)
+    return bool(pred(e))
+
+
 def is_wrapping_next_or_diff(e, prov):
     """wrapping_add(counter, c) or wrapping_sub(x, counter-ish)"""
     e = strip_casts(e)
@@ -99,6 +108,15 @@ def run_one(ck, prog):
             if any(is_counter(x, ctx.prov) for x in a):
                 n_arith += 1
                 ck.ob("C17.1", f"{n}|wrapping|{t['callee'].split('::')[-1]}({','.join(canon(x) for x in a)})", True, fn=fn["path"], site=ctx.site(bb), detail="wrapping arithmetic on ring indices")
+        # any other numeric method on a raw index (saturating_*, checked_*, abs_diff, min/max, cmp ...) is not modular either
+        for bb, t in ctx.cfg.calls(lambda t: "core::num::<impl u32>::" in (t.get("callee") or "") or (t.get("callee") or "").endswith(("cmp::min", "cmp::max", "Ord::cmp", "PartialOrd::partial_cmp", "Ord::min", "Ord::max", "PartialOrd::lt", "PartialOrd::le", "PartialOrd::gt", "PartialOrd::ge"))):
+            if (t.get("callee") or "").endswith(("u32>::wrapping_add", "u32>::wrapping_sub")):
+                continue
+            a = ctx.args(bb)
+            if any(is_counter(x, ctx.prov) for x in a):
+                n_arith += 1
+                ck.ob("C17.1", f"{n}|non-modular-call|{t['callee'].split('::')[-1]}({','.join(canon(x) for x in a)})", False, fn=fn["path"], site=ctx.site(bb),
+                      detail=f"`{t['callee'].split('::')[-1]}` on free-running 32-bit ring indices is not modular: once the tail has wrapped past u32::MAX and the head has not, the distance is wrong (e.g. saturates to 0: the ring looks empty for ever)")
     ck.floor("C17.1", "counter arithmetic sites", n_arith, 3)
 
     # ---- C17.2 capacity and index formulae --------------------------------------------------------------------------------
@@ -116,10 +134,10 @@ def run_one(ck, prog):
                 if diff and ent:
                     d = diff[0]
                     nxt_ok = mentions(d[2][0], g.prov, lambda z: z[0] == "call" and (z[1] or "").endswith("u32>::wrapping_add") and mentions(z[2][0], g.prov, lambda w: w[0] == "field" and w[2] == "tail") and fold(z[2][1]) == 1)
-                    head_ok = mentions(d[2][1], g.prov, lambda z: z[0] == "call" and (z[1] or "").endswith(("acquire_khead", "get_khead_relaxed")))
+                    head_ok = all_defs(d[2][1], g.prov, lambda z: isinstance(z, tuple) and z[0] == "call" and (z[1] or "").endswith(("acquire_khead", "get_khead_relaxed")))
                     le = (f[1] == "Le" and strip_casts(f[2]) is d) or (f[1] == "Ge" and strip_casts(f[3]) is d)
                     cap = nxt_ok and head_ok and le
-        ck.ob("C17.2", "slot-only-when-space", cap, fn=g.path, detail="a slot may be handed out only under (tail + 1) - kernel_head <= ring_entries, computed with wrapping arithmetic")
+        ck.ob("C17.2", "slot-only-when-space", cap, fn=g.path, detail="a slot may be handed out only under (tail + 1) - kernel_head <= ring_entries, computed with wrapping arithmetic, where kernel_head is on every path the head word the KERNEL publishes (a private copy of what was flushed says nothing about what the kernel has consumed)")
         # index formula
         idx_ok = False
         for bb, t in g.cfg.calls(lambda t: (t.get("callee") or "").endswith("::add")):
@@ -173,6 +191,24 @@ def run_one(ck, prog):
                      mentions(f[1], x.prov, lambda z: z[0] == "const" and z[2] and z[2].endswith("IORING_SETUP_SQPOLL")) for f in facts)
         ck.ob("C17.3", f"{n}|sqpoll-uses-strong-ordering", bool(strong) and ok, fn=x.path, detail=f"under IORING_SETUP_SQPOLL the kernel thread runs concurrently: `{loaders[0]}` must be used on the SQPOLL == true edge")
     ck.floor("C17.3", "atomic ops on ring words", n_at, 4)
+
+    # the completion ring is empty exactly when the two indices are equal: the only comparisons guarding None / Some in get_next_cqe
+    is_kt = lambda z: isinstance(z, tuple) and z[0] == "call" and (z[1] or "").endswith("acquire_ktail")  # noqa: E731
+    is_kh = lambda z: isinstance(z, tuple) and z[0] == "call" and (z[1] or "").endswith("acquire_khead")  # noqa: E731
+    for kind, want in (("None", "Eq"), ("Some", "Ne")):
+        blocks = []
+        for b in fns["get_next_cqe"]["blocks"]:
+            if b["id"] not in c.cfg.live_blocks() or b.get("cleanup"):
+                continue
+            if kind == "None" and any(s2["k"] == "assign" and s2["dst"]["l"] == 0 and s2["rv"]["k"] == "agg" and s2["rv"].get("variant") == "None" for s2 in b["stmts"]):
+                blocks.append(b["id"])
+            if kind == "Some" and ((b["term"]["k"] == "call" and b["term"]["dst"]["l"] == 0) or any(s2["k"] == "assign" and s2["dst"]["l"] == 0 and s2["rv"]["k"] == "agg" and s2["rv"].get("variant") == "Some" for s2 in b["stmts"])):
+                blocks.append(b["id"])
+        for bid in blocks:
+            fs = [f for f in panics.dominating_facts(c, bid) if f[0] == "cmp" or (f[0] == "truth" and mentions(f[1], c.prov, lambda z: is_kt(z) or is_kh(z)))]
+            exact = len(fs) == 1 and fs[0][0] == "cmp" and fs[0][1] == want and ((is_kt(strip_casts(fs[0][2])) and is_kh(strip_casts(fs[0][3]))) or (is_kh(strip_casts(fs[0][2])) and is_kt(strip_casts(fs[0][3]))))
+            ck.ob("C17.2", f"cqe-{kind.lower()}-iff-tail{'==' if want == 'Eq' else '!='}head", exact, fn=c.path, site=c.site(bid),
+                  detail=f"get_next_cqe must return {kind} exactly when kernel tail {'==' if want == 'Eq' else '!='} kernel head (free-running indices: equality is the only wrap-safe emptiness test); guarding comparisons found: {[(f[1], show(f[2]), show(f[3])) if f[0] == 'cmp' else ('truth', show(f[1]), f[2]) for f in fs]}")
 
     # ---- C17.4 no release before last use -----------------------------------------------------------------------------------------
     adv = [bb for bb, t in c.cfg.calls(lambda t: (t.get("callee") or "").endswith("UringCompletionQueue::advance"))]
